@@ -22,6 +22,7 @@ TEXT_LINES = [
     'back\\slash \\d+ \\n', 'regex chars ^$.*+?()[]{}|', 'tab\there', 'caf\u00e9 \u4e2d\u6587 \u00b2', 'C:\\Users\\demo', '100%',
     '', '   indented', 'trailing   ', 'a{2}', "it's", '"""triple"""', "'''triple'''", 'Jan 5, 2021 was a day',
     '12:30:45 time', '2020-01-15 10:11:12', '5 feb 2021', '$HOME/x', 'a\\', 'line with # hash', '--flag=value',
+    '12 Sept 2019', 'Sept 3, 2021 14:05:09', 'July 4, 2020 was hot', 'on 1 sept 2021', '30 June 2022 09:08:07', 'Mar 5 2020',
 ]
 
 FILE_NAMES = ['out.txt', 'data.bin', 'a b2', 'a-b', 'a_b', 'stdout', 'stderr', 'exit_code', 'report-v1.txt',
